@@ -14,7 +14,7 @@ import (
 // re-establishes v != nil, and that dereferences v (or invokes a method on a nil interface, calls a nil
 // func, writes a nil map), is a crash the code itself believes possible.
 func init() {
-	register(&Rule{ID: "C01.NIL", Min: 150, Doc: "no use of a value that must be non-nil on a path where the code itself established it is nil", Run: runC01Nil})
+	register(&Rule{ID: "C01.NIL", Min: 450, Doc: "no use of a value that must be non-nil on a path where the code itself established it is nil; a field of the workflow AST that the code tests for nil anywhere is used only behind a test of the same field path", Run: runC01Nil})
 }
 
 // nilTest describes `v == nil` / `v != nil` as the condition of an If.
@@ -232,4 +232,5 @@ func runC01Nil(c *Ctx) {
 			}
 		}
 	}
+	c01NilFields(c)
 }
